@@ -12,6 +12,7 @@ from ..core import (
     walk_local,
     calls_in,
     block_raises,
+    strip_docstring,
 )
 from ..cfg import cfg_of
 
@@ -172,41 +173,241 @@ def r11_2(prog, rep):
     obl(rep, st, ev[0] if ev else st.node, "R11.2", ok, "the call is evaluated in that environment: self.call.eval(data_mask, self.env)")
 
 
-def r11_3(prog, rep):
-    gi = prog.fn("environment.VarLookupDict.__getitem__")
-    key = gi.params[1]
-    loops = [n for n in walk_local(gi.node) if isinstance(n, ast.For)]
-    ok = len(loops) == 1 and unparse(loops[0].iter) == "self._dicts"
-    obl(rep, gi, loops[0] if loops else gi.node, "R11.3", ok, "lookup iterates self._dicts forward",
-        unparse(loops[0].iter) if loops else "", f"lookup iterates `{unparse(loops[0].iter) if loops else None}`: order of scopes changed")
+class _Exc(Exception):
+    def __init__(self, name):
+        self.name = name
+
+
+def _lookup_worlds(prog, cls, mname, _depth=0):
+    """Outcome of VarLookupDict.<mname>(key, ...) in the two worlds of a lookup - 'hit': some scope has the key (HIT = the
+    value in the FIRST such scope, in list order) / 'miss': no scope has it.  {'hit': outcome, 'miss': outcome, 'core': fn or
+    None} with outcome = ('return', value) | ('raise', exception class name).  Values: 'HIT', True, False, None,
+    ('param', name), tuples of values."""
+    if _depth > 4:
+        raise AnalysisError("lookup: helper chain too deep")
+    m = cls.methods.get(mname)
+    if m is None:
+        raise AnalysisError(f"VarLookupDict has no {mname}")
+    key = m.params[1] if len(m.params) > 1 else None
+    body = strip_docstring(m.node.body)
+    loops = [n for n in body if isinstance(n, ast.For)]
     if loops:
+        # the core search loop
+        if len(loops) != 1 or len(body) != 2 or body[0] is not loops[0]:
+            raise AnalysisError(f"{m.qual}: the search loop is not `for d in <scopes>: ...` followed by one statement")
         lp = loops[0]
+        facts = {"fn": m, "iter": unparse(lp.iter), "node": lp}
         d = unparse(lp.target)
-        rets = [n for n in ast.walk(lp) if isinstance(n, ast.Return)]
-        ok = len(rets) == 1 and unparse(rets[0].value) == f"{d}[{key}]"
-        obl(rep, gi, rets[0] if rets else lp, "R11.3", ok, "returns inside the loop at the first dict that has the key")
-        hs = [h for n in ast.walk(lp) if isinstance(n, ast.Try) for h in n.handlers]
-        ok = len(hs) == 1 and dotted(hs[0].type) == "KeyError" and all(isinstance(s, (ast.Pass, ast.Continue)) for s in hs[0].body)
-        obl(rep, gi, hs[0] if hs else lp, "R11.3", ok, "only KeyError is swallowed, and only to try the next dict",
-            "", "exception handling in the lookup loop changed: a miss may resolve to something else")
-        after = gi.body[gi.body.index(lp) + 1:] if lp in gi.body else []
-        ok = len(after) == 1 and isinstance(after[0], ast.Raise) and dotted(after[0].exc.func) == "KeyError"
-        obl(rep, gi, after[0] if after else gi.node, "R11.3", ok, "a name defined nowhere raises KeyError after the loop",
-            "", "a name defined in no scope does not raise KeyError")
+        hit = None
+        swallowed_ok = False
+        if len(lp.body) == 1 and isinstance(lp.body[0], ast.Try) and not lp.body[0].orelse and not lp.body[0].finalbody:
+            t = lp.body[0]
+            if len(t.body) == 1 and isinstance(t.body[0], ast.Return) and t.body[0].value is not None:
+                hit = t.body[0].value
+            swallowed_ok = len(t.handlers) == 1 and dotted(t.handlers[0].type) == "KeyError" \
+                and all(isinstance(x, (ast.Pass, ast.Continue)) for x in t.handlers[0].body)
+        elif len(lp.body) == 1 and isinstance(lp.body[0], ast.If) and not lp.body[0].orelse and unparse(lp.body[0].test) == f"{key} in {d}" \
+                and len(lp.body[0].body) == 1 and isinstance(lp.body[0].body[0], ast.Return):
+            hit = lp.body[0].body[0].value
+            swallowed_ok = True
+        if hit is None:
+            rets_in = [n for n in ast.walk(lp) if isinstance(n, ast.Return)]
+            if rets_in:
+                # the loop returns something, but not under "this dict has the key": the first-hit discipline is broken
+                facts["swallow"] = False
+                facts["bad_form"] = f"`{short(lp.body[0], 70)}` ... `{short(rets_in[0], 40)}`"
+                return {"hit": ("return", ("not-first-hit", facts["bad_form"])), "miss": ("return", None), "core": facts}
+            raise AnalysisError(f"{m.qual}: the body of the search loop is not `try: return ... except KeyError: pass`")
+        facts["swallow"] = swallowed_ok
+
+        def hv(e):
+            if unparse(e) == f"{d}[{key}]":
+                return "HIT"
+            if isinstance(e, ast.Tuple):
+                return tuple(hv(x) for x in e.elts)
+            if isinstance(e, ast.Constant):
+                return e.value
+            raise AnalysisError(f"{m.qual}: unmodelled value returned on a hit `{unparse(e)}`")
+
+        after = body[1]
+        if isinstance(after, ast.Raise):
+            miss = ("raise", dotted(after.exc.func) if isinstance(after.exc, ast.Call) else dotted(after.exc))
+        elif isinstance(after, ast.Return):
+            miss = ("return", hv(after.value) if after.value is not None else None)
+        else:
+            raise AnalysisError(f"{m.qual}: unmodelled statement after the search loop")
+        return {"hit": ("return", hv(hit)), "miss": miss, "core": facts}
+    out = {"core": None}
+    for world in ("hit", "miss"):
+        env = {p: ("param", p) for p in m.params[1:]}
+
+        def call_outcome(name):
+            r = _lookup_worlds(prog, cls, name, _depth + 1)
+            if r["core"] is not None:
+                out["core"] = r["core"]
+            o = r[world]
+            if o[0] == "raise":
+                raise _Exc(o[1])
+            return o[1]
+
+        def ev(e):
+            if isinstance(e, ast.Constant):
+                return e.value
+            if isinstance(e, ast.Name):
+                if e.id in env:
+                    return env[e.id]
+                raise AnalysisError(f"{m.qual}: unbound `{e.id}`")
+            if isinstance(e, ast.Tuple):
+                return tuple(ev(x) for x in e.elts)
+            if isinstance(e, ast.Subscript) and unparse(e.value) == "self" and unparse(e.slice) == key:
+                return call_outcome("__getitem__")
+            if isinstance(e, ast.Call) and isinstance(e.func, ast.Attribute) and unparse(e.func.value) == "self" and e.func.attr in cls.methods \
+                    and e.args and unparse(e.args[0]) == key:
+                if e.func.attr == "get":
+                    # get(key[, default]): HIT or the default handed in
+                    r = _lookup_worlds(prog, cls, "get", _depth + 1)
+                    if r["core"] is not None:
+                        out["core"] = r["core"]
+                    o = r[world]
+                    if o[0] == "raise":
+                        raise _Exc(o[1])
+                    v = o[1]
+                    if isinstance(v, tuple) and v and v[0] == "param":
+                        v = ev(e.args[1]) if len(e.args) > 1 else None
+                    return v
+                return call_outcome(e.func.attr)
+            if isinstance(e, ast.Call) and dotted(e.func) == "object" and not e.args:
+                return ("sentinel", id(e))
+            if isinstance(e, ast.Call) and dotted(e.func) == "any" and len(e.args) == 1 and isinstance(e.args[0], (ast.GeneratorExp, ast.ListComp)) \
+                    and len(e.args[0].generators) == 1 and unparse(e.args[0].generators[0].iter) == "self._dicts" and not e.args[0].generators[0].ifs \
+                    and unparse(e.args[0].elt) == f"{key} in {unparse(e.args[0].generators[0].target)}":
+                return world == "hit"
+            if isinstance(e, ast.Compare) and len(e.ops) == 1 and isinstance(e.ops[0], (ast.In, ast.NotIn)) and unparse(e.left) == key \
+                    and unparse(e.comparators[0]) == "self":
+                v = call_outcome("__contains__")
+                if isinstance(v, bool):
+                    return v if isinstance(e.ops[0], ast.In) else not v
+            if isinstance(e, ast.Subscript) and isinstance(e.slice, ast.Constant) and isinstance(e.slice.value, int):
+                b = ev(e.value)
+                if isinstance(b, tuple) and not (b and b[0] == "param"):
+                    return b[e.slice.value]
+            if isinstance(e, ast.UnaryOp) and isinstance(e.op, ast.Not):
+                v = ev(e.operand)
+                if isinstance(v, bool):
+                    return not v
+            if isinstance(e, ast.IfExp):
+                t = ev(e.test)
+                if isinstance(t, bool):
+                    return ev(e.body) if t else ev(e.orelse)
+            if isinstance(e, ast.Compare) and len(e.ops) == 1 and isinstance(e.ops[0], (ast.Is, ast.IsNot)):
+                a, b = ev(e.left), ev(e.comparators[0])
+                sa_, sb_ = (isinstance(a, tuple) and a[:1] == ("sentinel",)), (isinstance(b, tuple) and b[:1] == ("sentinel",))
+                if sa_ or sb_:
+                    # an object created in this very call cannot be stored in any scope: it is only identical to itself
+                    same = a == b
+                    return same if isinstance(e.ops[0], ast.Is) else not same
+                if a in ("HIT",) or b in ("HIT",) or isinstance(a, tuple) or isinstance(b, tuple):
+                    raise AnalysisError(f"{m.qual}: identity test on a looked-up value `{unparse(e)}` (a stored None would count as a miss)")
+                return (a is b) if isinstance(e.ops[0], ast.Is) else (a is not b)
+            raise AnalysisError(f"{m.qual}: unmodelled expression `{unparse(e)[:60]}`")
+
+        class _Ret(Exception):
+            def __init__(self, v):
+                self.v = v
+
+        def run(stmts):
+            for st in stmts:
+                if isinstance(st, ast.Return):
+                    raise _Ret(ev(st.value) if st.value is not None else None)
+                if isinstance(st, ast.Raise):
+                    raise _Exc(dotted(st.exc.func) if isinstance(st.exc, ast.Call) else (dotted(st.exc) if st.exc is not None else "re-raise"))
+                if isinstance(st, ast.Expr):
+                    if not isinstance(st.value, ast.Constant):
+                        ev(st.value)
+                    continue
+                if isinstance(st, ast.Pass):
+                    continue
+                if isinstance(st, ast.Assign) and len(st.targets) == 1:
+                    v = ev(st.value)
+                    t = st.targets[0]
+                    if isinstance(t, ast.Name):
+                        env[t.id] = v
+                        continue
+                    if isinstance(t, ast.Tuple) and isinstance(v, tuple) and len(v) == len(t.elts) and all(isinstance(x, ast.Name) for x in t.elts):
+                        for x, vv in zip(t.elts, v):
+                            env[x.id] = vv
+                        continue
+                if isinstance(st, ast.If):
+                    t = ev(st.test)
+                    if isinstance(t, bool):
+                        run(st.body if t else st.orelse)
+                        continue
+                if isinstance(st, ast.Try) and not st.finalbody:
+                    try:
+                        run(st.body)
+                    except _Exc as e:
+                        hs = [h for h in st.handlers if h.type is None or e.name in [dotted(x) for x in (h.type.elts if isinstance(h.type, ast.Tuple) else [h.type])]
+                              or dotted(h.type) in ("Exception", "BaseException", "LookupError")]
+                        if not hs:
+                            raise
+                        if hs[0].type is None or dotted(hs[0].type) in ("Exception", "BaseException"):
+                            out.setdefault("broad", []).append(hs[0])
+                        run(hs[0].body)
+                    else:
+                        run(st.orelse)
+                    continue
+                raise AnalysisError(f"{m.qual}: unmodelled statement `{unparse(st)[:60]}`")
+
+        try:
+            run(body)
+            out[world] = ("return", None)
+        except _Ret as r:
+            out[world] = ("return", r.v)
+        except _Exc as e:
+            out[world] = ("raise", e.name)
+    return out
+
+
+def r11_3(prog, rep):
+    cls = prog.cls("environment.VarLookupDict")
+    gi = prog.fn("environment.VarLookupDict.__getitem__")
+    W = {}
+    for name in ("__getitem__", "__contains__", "get"):
+        try:
+            W[name] = _lookup_worlds(prog, cls, name)
+        except AnalysisError as e:
+            rep.defer(f"R11.3: {e}")
+            W[name] = None
+    g = W["__getitem__"]
+    if g is not None:
+        core = g["core"]
+        cf = core["fn"] if core else gi
+        obl(rep, cf, core["node"] if core else gi.node, "R11.3", core is not None and core["iter"] == "self._dicts", "lookup iterates self._dicts forward",
+            core["iter"] if core else "", f"lookup iterates `{core['iter'] if core else None}`: order of scopes changed")
+        obl(rep, gi, gi.node, "R11.3", g["hit"] == ("return", "HIT"), "returns the value of the first dict that has the key",
+            str(g["hit"]), f"on a hit __getitem__ gives {g['hit']}")
+        obl(rep, cf, core["node"] if core else gi.node, "R11.3", bool(core and core["swallow"]) and not g.get("broad"),
+            "only KeyError is swallowed, and only to try the next dict", "", "exception handling in the lookup loop changed: a miss may resolve to something else")
+        obl(rep, gi, gi.node, "R11.3", g["miss"] == ("raise", "KeyError"), "a name defined nowhere raises KeyError after the loop",
+            str(g["miss"]), f"a name defined in no scope gives {g['miss']} instead of KeyError")
     init = prog.fn("environment.VarLookupDict.__init__")
     st = [s for s in walk_local(init.node) if isinstance(s, ast.Assign) and is_self_attr(s.targets[0], "_dicts")]
     sh = shape(st[0].value, {}) if st else None
     obl(rep, init, st[0] if st else init.node, "R11.3", sh == ["{}", f"*{init.params[1]}*"],
         "_dicts = [{}] + list(dicts): private dict first, user scopes in the given order", str(sh), f"_dicts is built as {sh}")
-    # __contains__/get are defined through __getitem__
-    for name in ("__contains__", "get"):
-        f = prog.fn(f"environment.VarLookupDict.{name}")
-        sub = [n for n in ast.walk(f.node) if isinstance(n, ast.Subscript) and unparse(n.value) == "self"]
-        via_get = [x for x in calls_in(f.node) if unparse(x.func) == "self.get"] if name == "__contains__" else []
-        # no second lookup path: the method never touches the scope list itself
-        own = [n for n in ast.walk(f.node) if isinstance(n, ast.Attribute) and n.attr == "_dicts"]
-        obl(rep, f, f.node, "R11.3", (len(sub) == 1 or len(via_get) == 1) and not own,
-            f"VarLookupDict.{name} delegates to __getitem__" + (" (possibly through get)" if name == "__contains__" else ""), nontrivial=False)
+    # __contains__ / get agree with __getitem__ in both worlds (hit: True / the value; miss: False / the default handed in)
+    c, gt = W["__contains__"], W["get"]
+    if c is not None:
+        f = prog.fn("environment.VarLookupDict.__contains__")
+        obl(rep, f, f.node, "R11.3", (c["hit"], c["miss"]) == (("return", True), ("return", False)) and not c.get("broad"),
+            "VarLookupDict.__contains__ is True exactly when the lookup hits", str((c["hit"], c["miss"])),
+            f"__contains__ gives {c['hit']} on a hit and {c['miss']} on a miss")
+    if gt is not None:
+        f = prog.fn("environment.VarLookupDict.get")
+        dflt = f.params[2] if len(f.params) > 2 else None
+        obl(rep, f, f.node, "R11.3", (gt["hit"], gt["miss"]) == (("return", "HIT"), ("return", ("param", dflt))) and not gt.get("broad"),
+            "VarLookupDict.get returns the looked-up value, the given default only on a miss", str((gt["hit"], gt["miss"])),
+            f"get gives {gt['hit']} on a hit and {gt['miss']} on a miss")
 
 
 # ---- tiny symbolic evaluator for get_function_from_module -------------------------------
